@@ -77,6 +77,29 @@ def handle (inp out : String) : String :=
             | .error e => s!"diff as:{label}:G0 result-unparsable-{e}"
           | none => s!"diff as:{label}:{g} model=G0"
     | _, _, _, _ => "skip bad-args"
+  | "as2" :: hashHex :: level :: keyHex :: _reply1 :: reply2Hex :: rest =>
+    -- the handle is used twice; the second answer (request id 2) decides what the handle then yields
+    let label := rest.headD "-"
+    let second := ((out.splitOn " | ").getD 1 "")
+    let ows := words second
+    let g := (ows.find? (·.startsWith "G")).getD "G-"
+    match ofHex hashHex, level.toNat?, ofHex keyHex, ofHex reply2Hex with
+    | some hash, some lv, some key, some reply =>
+      let resHex := (ows.find? (·.startsWith "R")).map fun w => (w.drop 1).toString
+      let viol : Option String :=
+        if ows.contains "RESULT-WITH-ERROR" then some "a-signature-was-returned-together-with-an-error"
+        else if label != "ok" && g == "G0" then some s!"re-used-handle-yields-a-signature-although-second-reply-{label}"
+        else if label == "ok" && g != "G0" then some s!"re-used-handle-refused-the-honest-second-reply-{g}"
+        else match resHex.bind ofHex with
+          | some res => resultSpec hash lv res
+          | none => none
+      match viol with
+      | some why => s!"specfail as2:{label} {why}"
+      | none =>
+        match signAggregated Hreal cfg hash lv 2 2 none key reply with
+        | .error _ => if g == "G0" then s!"diff as2:{label}:{g} model=refused" else s!"ok as2:{label}:{g}"
+        | .ok _ => if g == "G0" then s!"ok as2:{label}:G0" else s!"diff as2:{label}:{g} model=G0"
+    | _, _, _, _ => "skip bad-args"
   | "q" :: hashHex :: level :: ver :: loginHex :: _key :: rest =>
     let label := rest.headD "-"
     let ows := words out
